@@ -31,7 +31,14 @@ ASSUMPTIONS = ["pool meshes are built from data owned by the case (fresh arrays 
 def cases(seed, tier):
     rng = random.Random(seed * 22695477 + 6)
     n = 320 if tier == "quick" else 40000
-    return [{"gen": "history", "seed": rng.randrange(2 ** 31), "steps": rng.randint(4, 8 if tier == "quick" else 14)} for _ in range(n)]
+    out = [{"gen": "history", "seed": rng.randrange(2 ** 31), "steps": rng.randint(4, 8 if tier == "quick" else 14)} for _ in range(n)]
+    # every producer kind, several draws each, through the same fixed history (both copy options, merge with itself, the transforms): detection of
+    # a producer-specific defect must not depend on the random histories happening to pair that producer with the right step
+    for rep in range(4 if tier == "quick" else 40):
+        for k in PRODUCER_KINDS:
+            out.append({"gen": "history", "seed": rng.randrange(2 ** 31), "steps": 9, "force_kind": k,
+                        "force_steps": ["copy", "copy", "copy", "merge", "translate", "normalize", "rotate", "scale", "copy"]})
+    return out
 
 
 # ----------------------------------------------------------------------------- producers
@@ -70,10 +77,14 @@ def _procedural(rng):
     return rng.choice(table)
 
 
-def _produce(ctx, rng, tmpdir):
+PRODUCER_KINDS = ["raw_surface", "raw_volume", "raw_hexes", "raw_polyline", "raw_points", "from_arrays", "loader", "procedural", "subdivision", "boundary", "dual", "spherify",
+                  "reorder", "loader_other"]
+
+
+def _produce(ctx, rng, tmpdir, force=None):
     """Returns (mesh, producer name)."""
     import mouette as M
-    k = rng.choice(["raw_surface", "raw_volume", "raw_volume", "raw_polyline", "raw_points", "from_arrays", "loader", "procedural", "procedural", "procedural",
+    k = force or rng.choice(["raw_surface", "raw_volume", "raw_volume", "raw_polyline", "raw_points", "from_arrays", "loader", "procedural", "procedural", "procedural",
                     "subdivision", "boundary", "dual", "spherify", "reorder", "loader_other"])
     if k == "reorder":
         # a mesh produced by renumbering the vertices of another one (the source is dropped)
@@ -102,7 +113,7 @@ def _produce(ctx, rng, tmpdir):
     if k == "raw_surface":
         z = surfaces.make(rng.randrange(2 ** 31), max_size=3)
         return build.surface(z["V"], z["F"], vrows=rng.choice(["list", "tuple", "nprow", "vec"])), k
-    if k == "raw_volume" and rng.random() < 0.35:
+    if k == "raw_hexes" or (k == "raw_volume" and rng.random() < 0.35):
         # hexahedral cells (6 faces, 8 corners per cell: the three corner containers differ), also with face completion switched off
         Vh, Ch = volumes.hex_block(volumes.random_cubes(rng, rng.randint(2, 4)))
         if rng.random() < 0.3:
@@ -300,8 +311,8 @@ def run_case(desc, ctx):
     T = M.geometry.transform if hasattr(M.geometry, "transform") else M.transform
     try:
         pool, shadows = [], []
-        for _ in range(rng.randint(2, 3)):
-            ok, (m, prod) = ctx.call("produce", _produce, ctx, rng, tmpdir, monitor="producer")
+        for _ in range(rng.randint(2, 3) if not desc.get("force_kind") else 1):
+            ok, (m, prod) = ctx.call("produce", _produce, ctx, rng, tmpdir, desc.get("force_kind"), monitor="producer")
             unit = rng.choice([1.0, 1.0, 1.0, 1.0, 1e-9, 1e7])
             if unit != 1.0 and len(m.vertices):
                 # the producer's mesh expressed in very small / very large units
@@ -318,7 +329,9 @@ def run_case(desc, ctx):
         for step in range(desc["steps"]):
             kind = rng.choice(["copy", "merge", "translate", "translate", "rotate", "scale", "scale_xyz", "normalize", "fit", "to_origin", "flatten",
                                "edit_component", "edit_iadd", "edit_connectivity", "inverse_translate", "inverse_rotate", "inverse_scale"])
-            j = rng.randrange(len(pool))
+            if desc.get("force_steps"):
+                kind = desc["force_steps"][step % len(desc["force_steps"])]
+            j = rng.randrange(len(pool)) if not desc.get("force_steps") else 0
             m, sh = pool[j], shadows[j]
             history.append(kind)
             if len(sh.V) == 0:
@@ -326,6 +339,8 @@ def run_case(desc, ctx):
             if kind == "copy" and len(pool) < 6:
                 attrs = rng.random() < 0.5
                 with_conn = rng.random() < 0.4
+                if desc.get("force_steps"):
+                    attrs = step % 2 == 0
                 ok, c = ctx.call("copy", M.mesh.copy, m, attrs, with_conn, monitor="copy")
                 ctx.obs("copy", "copy")
                 if with_conn and hasattr(m, "connectivity"):
